@@ -23,7 +23,12 @@ type sstr struct{ c []value }
 
 // decStr is the decimal representation of a symbolic integer (strconv.Itoa
 // of a sym). Only ParseInt/Atoi, comparison with "" and storage are allowed.
-type decStr struct{ n sym }
+// decStr: the decimal numeral of a symbolic integer (i: the interpreter of the
+// path it belongs to, used when its digits have to be materialised).
+type decStr struct {
+	n sym
+	i *interpreter
+}
 
 func kindInfo(k types.BasicKind) (w uint8, signed bool) {
 	switch k {
@@ -218,7 +223,7 @@ func strCells(v value) []value {
 	case sstr:
 		return s.c
 	case decStr:
-		panic(engineError{"decimal string of a symbolic integer inspected (bytes)"})
+		return strCells(s.i.forceStr(s, "bytes"))
 	}
 	panic(engineError{fmt.Sprintf("strCells: %T", v)})
 }
@@ -459,11 +464,16 @@ func symBinop(i *interpreter, op token.Token, t types.Type, x, y value) (value, 
 			}
 			switch op {
 			case token.ADD:
-				if _, ok := x.(decStr); ok {
-					panic(engineError{"decimal string of a symbolic integer concatenated"})
+				if d, ok := x.(decStr); ok {
+					x = i.forceStr(d, "concatenated")
 				}
-				if _, ok := y.(decStr); ok {
-					panic(engineError{"decimal string of a symbolic integer concatenated"})
+				if d, ok := y.(decStr); ok {
+					y = i.forceStr(d, "concatenated")
+				}
+				if xs, ok := x.(string); ok {
+					if ys, ok := y.(string); ok {
+						return xs + ys, true
+					}
 				}
 				a, b := strCells(x), strCells(y)
 				c := make([]value, 0, len(a)+len(b))
